@@ -12,7 +12,10 @@
 //!   `c10.ctor.new <kind> S`         `UserId::new` / `RoomId::new` / `EventId::new` (T3 only)
 //!   `c10.ctor.b64 S`                `OwnedBase64PublicKey::with_bytes` (S = raw bytes in hex)
 //!   `c10.exh <kind> S ORA`          `c10.id` on prefix ++ [a, b] for all a, b of the alphabet
+//!   `c10.opaque <type> S`           unchecked identifier types: every form stores any string (T3)
+//!   `c10.ip6 S` / `c10.ip4 S` / `c10.ipexh …`   `std::net` parsers vs their Lean reference (ip.rs)
 mod gen;
+mod ip;
 mod spec;
 
 use std::{
@@ -25,6 +28,8 @@ use std::{
 
 use h_lib::{h_util, stok, Outcome, Req, Rng};
 use ruma_common::{
+    Base64PublicKeyOrDeviceId, OneTimeKeyName, OwnedBase64PublicKeyOrDeviceId, OwnedDeviceId,
+    OwnedOneTimeKeyName, OwnedTransactionId, OwnedVoipId, TransactionId, VoipId,
     Base64PublicKey, ClientSecret, CrossSigningKeyId, DeviceId, DeviceKeyAlgorithm, DeviceKeyId,
     EventId, MxcUri, OwnedBase64PublicKey, OwnedClientSecret, OwnedCrossSigningKeyId,
     OwnedDeviceKeyId, OwnedEventId, OwnedMxcUri, OwnedRoomAliasId, OwnedRoomId,
@@ -275,6 +280,52 @@ fn forms_of(kind: Kind, s: &str) -> Vec<(&'static str, FormRes)> {
     }
 }
 
+macro_rules! unchecked_forms {
+    ($T:ty, $Owned:ty, $s:expr) => {{
+        let s: &str = $s;
+        let j = serde_json::Value::String(s.to_owned());
+        let text = serde_json::to_string(s).unwrap();
+        let v: Vec<(&'static str, FormRes)> = vec![
+            ("<&T>::from(&str)", Ok(<&$T>::from(s).as_str().to_owned())),
+            ("Owned::from(&str)", Ok(<$Owned>::from(s).as_str().to_owned())),
+            ("Owned::from(String)", Ok(<$Owned>::from(s.to_owned()).as_str().to_owned())),
+            ("Owned::from(Box<str>)", Ok(<$Owned>::from(Box::<str>::from(s)).as_str().to_owned())),
+            ("Box<T>::from(&str)", Ok(Box::<$T>::from(s).as_str().to_owned())),
+            ("Box<T>::from(String)", Ok(Box::<$T>::from(s.to_owned()).as_str().to_owned())),
+            ("Owned: Deserialize(Value)", serde_json::from_value::<$Owned>(j.clone()).map(|x| x.as_str().to_owned()).map_err(|_| ())),
+            ("Box<T>: Deserialize(Value)", serde_json::from_value::<Box<$T>>(j).map(|x| x.as_str().to_owned()).map_err(|_| ())),
+            ("Owned: Deserialize(text)", serde_json::from_str::<$Owned>(&text).map(|x| x.as_str().to_owned()).map_err(|_| ())),
+            ("Display", Ok(<$Owned>::from(s).to_string())),
+            ("Serialize", serde_json::to_value(<$Owned>::from(s)).ok().and_then(|x| x.as_str().map(str::to_owned)).ok_or(())),
+            ("Clone", Ok(<$Owned>::from(s).clone().as_str().to_owned())),
+            ("String::from", Ok(String::from(<$Owned>::from(s)))),
+        ];
+        v
+    }};
+}
+
+pub const OPAQUE: &[&str] = &["deviceid", "transactionid", "voipid", "onetimekeyname", "base64ordeviceid"];
+
+fn run_opaque(ty: &str, s: &str) -> Outcome {
+    let forms = match ty {
+        "deviceid" => unchecked_forms!(DeviceId, OwnedDeviceId, s),
+        "transactionid" => unchecked_forms!(TransactionId, OwnedTransactionId, s),
+        "voipid" => unchecked_forms!(VoipId, OwnedVoipId, s),
+        "onetimekeyname" => unchecked_forms!(OneTimeKeyName, OwnedOneTimeKeyName, s),
+        "base64ordeviceid" => unchecked_forms!(Base64PublicKeyOrDeviceId, OwnedBase64PublicKeyOrDeviceId, s),
+        _ => return Outcome::bad(),
+    };
+    let mut t3 = vec![];
+    for (name, r) in &forms {
+        match r {
+            Ok(stored) if stored == s => {}
+            Ok(_) => t3.push(format!("form `{name}` does not store the input byte-for-byte")),
+            Err(()) => t3.push(format!("form `{name}` rejects a string although the type is unchecked")),
+        }
+    }
+    Outcome { imp: format!("ok {}", stok(s)), t3 }
+}
+
 /// Does the canonical public form accept `s`? (For `MxcUri`: `is_valid()`.)
 fn accepted(kind: Kind, s: &str) -> bool {
     match kind {
@@ -400,6 +451,15 @@ fn fields(kind: Kind, s: &str, t3: &mut Vec<String>) -> Vec<String> {
                     t3.push("RoomOrAliasId::server_name is not a suffix after a colon".into());
                 }
             }
+            // a room-or-alias ID is a room ID or a room alias: the specific parsers agree
+            if <&RoomId>::try_from(s).is_ok() == <&RoomAliasId>::try_from(s).is_ok() {
+                t3.push("RoomOrAliasId accepts a string that is not exactly one of RoomId / RoomAliasId".into());
+            }
+            if let (Ok(a), Ok(b)) = (&is_room, <&RoomId>::try_from(s)) {
+                if !*a || b.as_str() != s {
+                    t3.push("is_room_id() is false on a string RoomId accepts".into());
+                }
+            }
             // conversions to the specific types keep the bytes
             if let Ok(r) = <&RoomId>::try_from(id) {
                 if r.as_str() != s {
@@ -442,6 +502,13 @@ fn fields(kind: Kind, s: &str, t3: &mut Vec<String>) -> Vec<String> {
                 };
                 if !ok {
                     t3.push("host ++ (\":\" ++ port)? does not recompose to the original string".into());
+                }
+            }
+            // an IP literal is a bracketed literal or a dotted quad (host = the part before `:port`)
+            if let Ok(v) = &ip {
+                let h = if s.starts_with('[') { "" } else { s.split(':').next().unwrap_or("") };
+                if *v != (s.starts_with('[') || Ipv4Addr::from_str(h).is_ok()) {
+                    t3.push("is_ip_literal() is not \"bracketed IPv6 literal or IPv4 dotted quad\"".into());
                 }
             }
             let ptok = match &port {
@@ -730,6 +797,14 @@ pub fn run(req: &str) -> Outcome {
             };
             run_key_ctor(kind, &alg, &name)
         }
+        "c10.ip6" | "c10.ip4" | "c10.ipexh" => ip::run(&toks),
+        "c10.opaque" => {
+            if toks.len() != 3 {
+                return bad();
+            }
+            let Some(s) = arg(toks[2]) else { return bad() };
+            run_opaque(toks[1], &s)
+        }
         "c10.ctor.b64" => {
             if toks.len() != 2 {
                 return bad();
@@ -765,8 +840,16 @@ fn id_requests(kind: Kind, s: &str, src: &str, with_spec: bool, out: &mut Vec<Re
 }
 
 fn exh_requests(kind: Kind, max_prefix: usize, out: &mut Vec<Req>) {
+    if kind == Kind::Mxc {
+        // the alphabet has no `/`: enumerate the server name before a fixed media id is not
+        // possible with this op, so enumerate the media id after a fixed server name as well
+        exh_requests_lead(kind, "mxc://h/", max_prefix, out);
+    }
+    exh_requests_lead(kind, if kind == Kind::Mxc { "mxc://" } else { "" }, max_prefix, out);
+}
+
+fn exh_requests_lead(kind: Kind, lead: &str, max_prefix: usize, out: &mut Vec<Req>) {
     let k = kind.name();
-    let lead = if kind == Kind::Mxc { "mxc://" } else { "" };
     // lengths 0 and 1 one by one
     for len in 0..=1 {
         for w in gen::words(len) {
@@ -861,8 +944,19 @@ fn gen(rng: &mut Rng, n: usize, tier: &str) -> Vec<Req> {
     for k in KINDS {
         exh_requests(*k, max_prefix, &mut out);
     }
+    // the std::net parsers against their Lean reference
+    ip::ip_requests(rng, n / 3, tier, &mut out);
     // random stream
-    for _ in 0..n {
+    for i in 0..n {
+        if i % 16 == 0 {
+            let ty = *rng.pick(OPAQUE);
+            let s = match rng.below(4) {
+                0 => gen::gen_junk(rng),
+                1 => gen::gen_boundary(Kind::ClientSecret, rng),
+                _ => gen::gen_valid(*rng.pick(KINDS), rng),
+            };
+            out.push(Req::new(format!("c10.opaque {ty} {}", stok(&s)), format!("{ty}.opaque")));
+        }
         let kind = *rng.pick(KINDS);
         let (s, src) = match rng.below(20) {
             0..=5 => (gen::gen_valid(kind, rng), "valid"),
